@@ -40,11 +40,13 @@ def run_property(prop, tier, replay=None):
     # 3. correspondence (one worker process per family: case generation runs the real code and is CPU bound)
     inputs = props.inputs_for(prop, tier, rng)
     fam_names = list(cfg.get("families", []))
+    if tier != "thorough" and cfg.get("quick_families"):
+        fam_names = list(cfg["quick_families"])     # every-change tier: the families that subsume the others
     fam_seeds = {f: rng.randrange(1 << 30) for f in fam_names}
     fam_results = []
     if fam_names:
         limit = FAMILY_TIMEOUT[tier]
-        with NestablePool(min(len(fam_names), 6)) as pool:
+        with NestablePool(min(len(fam_names), 8)) as pool:
             pending = [(f, pool.apply_async(_run_one_family, (f, inputs, fam_seeds[f], limit))) for f in fam_names]
             t_fam = time.time()
             for f, job in pending:
